@@ -625,3 +625,34 @@ func evalMnemonic(st *stats, fam, m string, strictSpaces bool) {
 	}
 	st.add(fam, "ref:"+rc, "impl:same")
 }
+
+// evalWIF: a private key exported as WIF (by the reference) must re-import as the same key, in
+// the same form (compressed / uncompressed), with the address of that form, and re-export to
+// the same string.
+func evalWIF(st *stats, fam string, k []byte, compr bool, ver byte) {
+	wif := refaddr.WIFEncode(k, compr, ver)
+	form := "u"
+	if compr {
+		form = "c"
+	}
+	rp := map[string]interface{}{"kind": "wif", "hex": hex.EncodeToString(k), "text": fmt.Sprint(form, int(ver))}
+	ord := "wif|" + wif
+	var pa *btc.PrivateAddr
+	var err error
+	if p := guard(func() { pa, err = btc.DecodePrivateAddr(wif) }); p != "" || err != nil {
+		st.add(fam, "ref:accept", "impl:refuses")
+		st.fail("lib/wif-roundtrip/refused", fmt.Sprintf("btc.DecodePrivateAddr(%s) (key %x, compressed=%v): %v %s", wif, k, compr, err, p), rp, ord)
+		return
+	}
+	pub, _ := refhd.PubFromPriv(k)
+	if !compr {
+		pub, _ = refhd.UncompressedFromPriv(k)
+	}
+	want := refaddr.B58CheckEncode(append([]byte{ver - 0x80}, refaddr.Hash160(pub)...))
+	if !bytes.Equal(pa.Key, k) || !bytes.Equal(pa.BtcAddr.Pubkey, pub) || pa.BtcAddr.String() != want || pa.String() != wif {
+		st.add(fam, "ref:same-key", "impl:differs")
+		st.fail("lib/wif-roundtrip/differs", fmt.Sprintf("btc.DecodePrivateAddr(%s) (key %x, compressed=%v): key %x public key %x address %s re-export %s; expected public key %x address %s", wif, k, compr, pa.Key, pa.BtcAddr.Pubkey, pa.BtcAddr.String(), pa.String(), pub, want), rp, ord)
+		return
+	}
+	st.add(fam, "ref:same-key", "impl:same")
+}
